@@ -28,6 +28,7 @@ J_newreq(e) ==
          ELSE IF e.bytes3 # e.bytes THEN "encoding-changed-when-the-caller-reused-its-argument-slices"
          ELSE IF e.bytesProto # <<>> /\ e.bytesProto # e.bytes THEN "protocol-identifier-on-the-wire-is-not-zero"
          ELSE IF e.prevNow # e.prevThen THEN "encoding-of-an-earlier-request-changed-after-a-later-one-was-built"
+         ELSE IF e.bytesScr # <<>> /\ e.bytesScr # e.bytes THEN "encoding-depends-on-what-the-caller-did-with-the-data-of-an-earlier-request"
          ELSE "ok"
 
 ----------------------------------------------------------------------------
